@@ -12,8 +12,13 @@ import (
 	"sync"
 
 	z "github.com/Oudwins/zog"
+	"github.com/Oudwins/zog/conf"
+	"github.com/Oudwins/zog/i18n"
+	"github.com/Oudwins/zog/i18n/en"
+	"github.com/Oudwins/zog/i18n/es"
 	p "github.com/Oudwins/zog/internals"
 	"github.com/Oudwins/zog/parsers/zjson"
+	"github.com/Oudwins/zog/zconst"
 	"github.com/Oudwins/zog/zenv"
 
 	"zogverif/internal/core"
@@ -347,6 +352,14 @@ func (c07) RunCase(c *core.Ctx) {
 		c07ReusedProvider(c)
 		return
 	}
+	if c.Case%64 == 14 {
+		c07LiveLanguages(c)
+		return
+	}
+	if c.Case%16 == 13 {
+		c07KeptLists(c)
+		return
+	}
 	switch c.Case % 3 {
 	case 0:
 		c07History(c)
@@ -355,6 +368,104 @@ func (c07) RunCase(c *core.Ctx) {
 	default:
 		c07Hygiene(c)
 	}
+}
+
+// c07LiveLanguages: "the global configuration at that moment": the language maps handed to i18n are read when an issue is formatted,
+// so replacing a language's map takes effect for the next execution whether or not that language was used before.
+func c07LiveLanguages(c *core.Ctx) {
+	saved := conf.IssueFormatter
+	defer func() { conf.IssueFormatter = saved }()
+	clone := func(m zconst.LangMap, mark string) zconst.LangMap {
+		out := zconst.LangMap{}
+		for t, codes := range m {
+			out[t] = map[zconst.ZogIssueCode]string{}
+			for code, msg := range codes {
+				out[t][code] = mark + msg
+			}
+		}
+		return out
+	}
+	langs := map[string]zconst.LangMap{"en": clone(en.Map, "v1:"), "es": clone(es.Map, "v1:")}
+	i18n.SetLanguagesErrsMap(langs, "en")
+	var s string
+	msg := func(lang string) string {
+		l := z.String().Min(5).Parse("ab", &s, z.WithCtxValue("lang", lang))
+		if len(l) != 1 {
+			return fmt.Sprintf("%d issues", len(l))
+		}
+		return l[0].Message
+	}
+	used := []string{"es", "en"}[c.R.Intn(2)]
+	first := msg(used)
+	for round := 2; round <= 4; round++ {
+		mark := fmt.Sprintf("v%d:", round)
+		langs["es"], langs["en"] = clone(es.Map, mark), clone(en.Map, mark)
+		for _, lang := range []string{"es", "en"} {
+			got := msg(lang)
+			c.Eval(1)
+			if !strings.HasPrefix(got, mark) {
+				c.Violation("execution-not-isolated|stale-language-configuration", map[string]any{"language": lang, "language_used_before_the_maps_were_replaced": used, "first_message": first,
+					"message_after_replacing_the_language_maps": got, "want_prefix": mark})
+				return
+			}
+		}
+	}
+	c.Count("live_language_rounds", 3)
+	c.NonTrivial(fpf("livelang|%s|%d", used, c.Case))
+}
+
+// c07KeptLists: issue lists of primitive schemas that the caller still holds are not touched by later executions, and handing
+// them back afterwards leaves the library as clean as fresh pools (a following execution with three issues reports those three).
+func c07KeptLists(c *core.Ctx) {
+	installCountingPools(&poolCounters{})
+	var s string
+	var n int
+	three := func() string {
+		l := z.String().Min(5).Email().HasPrefix("zz").Parse("ab", &s)
+		return obs.Multiset(obs.CanonList(l), func(ci obs.CI) string { return ci.Full() })
+	}
+	want := three()
+	installCountingPools(&poolCounters{})
+	fp := func(l z.ZogIssueList) string {
+		var sb strings.Builder
+		for _, is := range l {
+			fmt.Fprintf(&sb, "%s|%s|%s|%s;", is.Path, is.Code, is.Dtype, is.Message)
+		}
+		return sb.String()
+	}
+	var kept []z.ZogIssueList
+	var prints []string
+	k := c.R.Range(2, 5)
+	for i := 0; i < k; i++ {
+		var l z.ZogIssueList
+		switch c.R.Intn(4) {
+		case 0:
+			l = z.String().Min(5).Email().Parse("ab", &s)
+		case 1:
+			l = z.Int().GT(10).Parse(3, &n)
+		case 2:
+			l = z.String().Required().Parse("", &s)
+		default:
+			l = z.Int().Parse("not a number", &n)
+		}
+		kept, prints = append(kept, l), append(prints, fp(l))
+		for j := range kept {
+			if now := fp(kept[j]); now != prints[j] {
+				c.Violation("execution-not-isolated|earlier-result-changed-by-a-later-execution", map[string]any{"result_number": j + 1, "when_returned": prints[j], "after_later_executions": now, "executions_so_far": i + 1})
+				return
+			}
+		}
+	}
+	c.Eval(k)
+	for _, l := range kept {
+		z.Issues.CollectList(l)
+	}
+	if got := three(); got != want {
+		c.Violation("execution-not-isolated|after-collecting-kept-lists", map[string]any{"kept_lists": prints, "result_on_fresh_pools": want, "result_after_collecting_them": got})
+		return
+	}
+	c.Count("kept_list_rounds", 1)
+	c.NonTrivial(fpf("keptlists|%v", prints))
 }
 
 // c07ReusedProvider: a data provider object that the caller keeps and hands to several calls (zenv.NewDataProvider) is part of
